@@ -14,7 +14,6 @@ import (
 	sdkmath "cosmossdk.io/math"
 	sdk "github.com/cosmos/cosmos-sdk/types"
 
-	cckeeper "github.com/functionx/fx-core/v8/x/crosschain/keeper"
 	cctypes "github.com/functionx/fx-core/v8/x/crosschain/types"
 
 	"fxmc/explore"
@@ -432,18 +431,7 @@ func (s *Spec) Ops(st *explore.State) []explore.Op {
 					c.Violate("genesis-round-trip", s.sig("export-import-panics"), fmt.Sprint(r))
 				}
 			}()
-			gs := cckeeper.ExportGenesis(c.Ctx, k)
-			store := scen.Store(s.w, c.Ctx, s.Chain)
-			var keys [][]byte
-			it := store.Iterator(nil, nil)
-			for ; it.Valid(); it.Next() {
-				keys = append(keys, append([]byte(nil), it.Key()...))
-			}
-			it.Close()
-			for _, key := range keys {
-				store.Delete(key)
-			}
-			cckeeper.InitGenesis(c.Ctx, k, gs)
+			scen.RestartFromExportedGenesis(s.w, c.Ctx, s.Chain)
 			c.Accepted = true
 			c.Outcome = "ok"
 			// the export does not carry claims parked for execution: what was observed and not yet executed is gone
